@@ -98,8 +98,16 @@ static void set_clear(void)
 	A.set_n = 0;
 }
 
+static int paused;
+void simalloc_pause(int on)
+{
+	paused += on ? 1 : -1;
+}
+
 static int should_fail(void)
 {
+	if (paused)
+		return 0; /* harness audit code calling library lookups: neither counted nor failed */
 	A.calls++;
 	if (A.fail_at && A.calls == A.fail_at)
 		goto fail;
